@@ -199,6 +199,13 @@ fn tweak_for(prop: &str) -> impl Fn(&mut Swarm) {
         }
         "C24" => {
             sw.extreme_ints = true;
+            if sw.max_rows_stmt == 6 && sw.domain >= 50 {
+                // one run in ~27: a wide table of integers just below 2^52 (several SIMD batches whose
+                // sums approach the 64-bit range), aggregated by the hostile statements
+                sw.big_rows = 4200;
+                sw.with_tx = false;
+                sw.steps = sw.steps.min(14);
+            }
         }
         "C02" => {
             if sw.guard("c02_no_ints_beyond_2_53") {
